@@ -387,12 +387,19 @@ def gen_simple(r, rooms_mode=1, big=False):
 # --------------------------------------------------------------------------------------------------
 # helpers
 
-def run_bin(binary, args, timeout=20, stdin=None):
+TIMEOUTS = [0]
+
+
+def run_bin(binary, args, timeout=10, stdin=None):
+    if TIMEOUTS[0] >= 3:
+        # the binary hangs: do not spend the whole budget on watchdog expiries
+        return None, "", "skipped after repeated timeouts", True
     try:
         p = subprocess.run([binary] + args, stdout=subprocess.PIPE, stderr=subprocess.PIPE, timeout=timeout,
                            env=dict(os.environ, RUST_LOG="info"), input=stdin)
         return p.returncode, p.stdout.decode("utf-8", "replace"), p.stderr.decode("utf-8", "replace"), False
     except subprocess.TimeoutExpired as e:
+        TIMEOUTS[0] += 1
         return None, (e.stdout or b"").decode("utf-8", "replace"), (e.stderr or b"").decode("utf-8", "replace"), True
 
 
